@@ -28,6 +28,7 @@ def cval(F, name):
 
 
 def check(F, R, tier):
+    lib.slot_loops_cover_all_slots(R, F, r'^iceoryx2::port::notifier::', 2, 'every attached listener obtains the id')
     lib.cas_loops_fresh(R, F, r'^iceoryx2_bb_lock_free::mpmc::bit_set::details::BitSet', 2, 'a decision computed once before the loop is stale after the first failed CAS')
     IDLE, PENDING, NOTIFIED = cval(F, 'IDLE'), cval(F, 'PENDING'), cval(F, 'NOTIFIED')
     R.ob('CONST', 'CONST::NOTIFICATION_STATE::distinct', len({IDLE, PENDING, NOTIFIED}) == 3, 'IDLE=%s PENDING=%s NOTIFIED=%s' % (IDLE, PENDING, NOTIFIED), 'iceoryx2-cal/src/event/common.rs')
@@ -143,7 +144,12 @@ def check(F, R, tier):
         sw = atomics(f, None, 'swap')
         cb = [s for s in f.sites if s.is_call and re.search(r'FnMut.*::call_mut$', s.callee or '')]
         key = 'FLOW::%s::callback-guarded-by-swap-result' % fnkey(f)
-        if len(sw) != 1 or not cb:
+        if len(sw) == 1 and not cb and any(c_.calls(orig=r'FnMut.*call_mut$|Fn.*::call') or [s_ for s_ in c_.sites if s_.is_call and re.search(r'FnMut.*::call_mut$', s_.callee or '')] for c_ in F.closures_of(f)):
+            # the bit loop is written as an iterator chain (`(0..BITS).filter(|b| value & (1 << b) != 0).for_each(|b| callback(..))`): the
+            # guard is a predicate closure, which this rule does not interpret
+            const_arg(R, f, sw[0].site, 1, {0}, 'swap-clears', 'each set bit is reported once')
+            R.notes.append('%s: the callback is invoked from a closure of an iterator chain - guard not judged' % key)
+        elif len(sw) != 1 or not cb:
             R.ob('FLOW', key, False, 'anchor-missing: swap / callback', f.file, f)
         else:
             const_arg(R, f, sw[0].site, 1, {0}, 'swap-clears', 'each set bit is reported once')
